@@ -52,7 +52,7 @@ OUTAGES = [0, 0, 0, 1, 2, 3, 5, 9, 30, 61, 125]
 CONFIGS_QUICK = [(64, 400), (4096, 1500)]
 CONFIGS_THOROUGH = [(64, 300), (128, 700), (1024, 1500), (4096, 4000), (4096, 0)]
 MAXT = 9223372036854775807
-HORIZON = 36        # last re-check of the expiry wheel: 1+2+...+8 s after the hold started
+HORIZON = 43        # last re-check of the expiry wheel with a sweep every second: 1, 4, 8, 13, 19, 26, 34, 43 s after the grant
 
 
 # ------------------------------------------------------------------------------------------------- generation
@@ -237,8 +237,38 @@ def delay_of(h, cfg_delay, history_expried):
     return cfg_delay
 
 
-def monitor(case, o1, o2):
-    """the property statement on the Go observations; returns [(signature, description)]"""
+def disk_skip(f, wall):
+    """LoadAofFile's expiry filter on a `disk` observation line (fields: disk db islock flag lockid key aofflag ctime start eflag etime ...)"""
+    ctime, eflag, et = int(f[7]), int(f[9]), int(f[10])
+    if eflag & 0x400:
+        return ctime + et // 1000 <= wall
+    if eflag & 0x40:
+        return ctime + et * 60 <= wall
+    if not eflag & 0x4000:
+        return et > 0 and ctime + et <= wall
+    return False
+
+
+def disk_dropped(f, wall):
+    """the record has no effect at the restart: dropped by the filter, or replayed with an exhausted term
+    (GetLockCommandExpriedTime yields 0: `Expried = 0` takes no hold)"""
+    if disk_skip(f, wall):
+        return True
+    ctime, eflag, et = int(f[7]), int(f[9]), int(f[10])
+    if eflag & 0x4400 or et == 0 or wall < ctime:
+        return False
+    e = wall - ctime
+    if eflag & 0x40:
+        m = e // 60 + (1 if (e < 60 or e % 60) else 0)
+        return et <= (m & 0xffff)
+    return et <= (e & 0xffff)
+
+
+def monitor(case, o1, o2, mrecs=None):
+    """the property statement on the Go observations; returns [(signature, description)].
+    The root-cause tag `<-per-record-expiry-filter` of a signature (not the verdict) also looks at the complete record
+    stream of the history (model output, tie-checked against the disk records): compaction applies the same filter
+    earlier and removes the dropped records from the disk."""
     hits = []
     cfg_delay = int(case[0].split()[2])
     expr = {}
@@ -266,6 +296,55 @@ def monitor(case, o1, o2):
         g.remove(best)
         return best
     A.sort(key=lambda h: (h["db"], h["key"], h["lockid"], -h["isaof"], h["deadline"]))
+    # root cause tag: the key's records on disk were partly dropped by the per-record expiry filter and partly replayed
+    mixed = collections.defaultdict(set)
+    for ln in o2.get("disk", []):
+        f = ln.split()
+        mixed[(int(f[1]), int(f[5]))].add(disk_dropped(f, wall))
+    eff_model, eff_disk = collections.defaultdict(list), collections.defaultdict(list)
+    for ln in o2.get("disk", []):
+        f = ln.split()
+        if not disk_dropped(f, wall):
+            eff_disk[(int(f[1]), int(f[5]))].append(tuple(f[2:6] + [str(int(f[6]) & ~1)] + f[7:14]))
+    for ln in mrecs or []:
+        f = ln.split()                                   # rec db islock flag lockid key aofflag ctime start eflag etime ...
+        mixed[(int(f[1]), int(f[5]))].add(disk_dropped(f, wall))
+        if not disk_dropped(f, wall):
+            eff_model[(int(f[1]), int(f[5]))].append(tuple(f[2:14]))
+    locks_on_key = collections.defaultdict(set)
+    updates_on_key = set()
+    prio_unlock_on_key = set()
+    updflag_on_key = set()
+    nlocks = collections.Counter()
+    for ln in case[1:]:
+        f = ln.split()
+        if f[0] == "req" and f[2] == "L":
+            locks_on_key[(int(f[14]), int(f[6]))].add(int(f[5]))
+            nlocks[(int(f[14]), int(f[6]))] += 1
+            if int(f[4]) & 3 or nlocks[(int(f[14]), int(f[6]))] > 1:
+                updates_on_key.add((int(f[14]), int(f[6])))          # update / re-entrant re-lock may change the terms
+            if int(f[4]) & 2:
+                updflag_on_key.add((int(f[14]), int(f[6])))
+        if f[0] == "req" and f[2] == "U" and int(f[7]) & 0x10:
+            prio_unlock_on_key.add((int(f[14]), int(f[6])))
+
+    twice = collections.Counter((h["db"], h["key"], h["lockid"]) for h in A)
+
+    def tag(k):
+        kk = (k[0], k[1])
+        if twice[k] > 1:
+            return "<-same-lockid-held-twice"
+        if len(mixed.get(kk, ())) == 2:
+            return "<-per-record-expiry-filter"
+        if kk in prio_unlock_on_key:
+            return "<-unlock-priority-flag-not-persisted"
+        if kk in updflag_on_key:
+            return "<-update-flag-replayed-as-update"
+        if mrecs is not None and eff_model.get(kk, []) != eff_disk.get(kk, []):
+            return "<-compaction-dropped-effective-record"      # C16: the compacted files replay to another state
+        return ""
+    raw = hits
+    hits = []
     # first holder's class of every key (later holders inherit its persistence delay in the code)
     for h in A:
         k = (h["db"], h["key"], h["lockid"])
@@ -283,38 +362,39 @@ def monitor(case, o1, o2):
         if b is None:
             if required and live and remaining > tol:
                 if h["isaof"]:
-                    hits.append(("persisted-hold-lost", "hold %s was persisted (isAof) and live (%d s left) but is not held after the restart" % (k, remaining)))
+                    hits.append(("persisted-hold-lost" + tag(k), "hold %s was persisted (isAof) and live (%d s left) but is not held after the restart" % (k, remaining)))
                 else:
                     exp_aoft = 0 if d == 0 else (d % 256)
-                    if h["aoftime"] != exp_aoft and h["mlocked"] > h["depth"]:
-                        why = "flag-inherited-from-first-holder"
+                    shared = h["mlocked"] > h["depth"] or len(locks_on_key[(k[0], k[1])]) > 1 or (k[0], k[1]) in updates_on_key
+                    if h["aoftime"] != exp_aoft and shared:
+                        why = "delay-taken-from-first-holder"
                     elif h["aoftime"] != exp_aoft:
-                        why = "delay-changed"
+                        why = "delay-unexplained"
                     elif d > HORIZON:
                         why = "delay-beyond-recheck-horizon"
-                    elif d == 0:
+                    elif d == 0 and (k[0], k[1]) not in updates_on_key:
                         why = "persist-immediately-not-persisted"
                     else:
                         why = "delay-recheck-gap"
                     hits.append(("not-persisted:" + why, "hold %s is %d s old, persistence delay %d s, %d s left: it counts as persisted but no record was written (isAof=0, aofTime=%d) and it is gone after the restart" % (k, age, d, remaining, h["aoftime"])))
             continue
         if forbidden:
-            why = "flag-inherited-from-first-holder" if h["aoftime"] != 255 else "never-persist-flag"
+            why = "delay-taken-from-first-holder" if h["aoftime"] != 255 else "never-persist-flag"
             hits.append(("never-persist-hold-restored:" + why, "hold %s carries the never-persist flag (aofTime=%d) and is held again after the restart" % (k, h["aoftime"])))
         if not live:
-            hits.append(("expired-hold-restored", "hold %s had expired %d s before the restart and is held again" % (k, -remaining)))
+            hits.append(("expired-hold-restored" + tag(k), "hold %s had expired %d s before the restart and is held again" % (k, -remaining)))
         for fld in ("depth", "count", "rcount", "val"):
             if b[fld] != h[fld]:
-                hits.append(("restored-hold-differs:" + fld, "hold %s: %s was %s before the stop and is %s after the restart" % (k, fld, h[fld], b[fld])))
+                hits.append(("restored-hold-differs:" + fld + tag(k), "hold %s: %s was %s before the stop and is %s after the restart" % (k, fld, h[fld], b[fld])))
         if not unlimited and abs(b["deadline"] - h["deadline"]) > tol:
             kind = "renewed" if b["deadline"] > h["deadline"] else "shortened"
-            hits.append(("deadline-%s:%s-unit" % (kind, uname), "hold %s: deadline %d before the stop, %d after the restart (difference %d s, tolerance %d s)" % (k, h["deadline"], b["deadline"], b["deadline"] - h["deadline"], tol)))
+            hits.append(("deadline-%s:%s-unit" % (kind, uname) + tag(k), "hold %s: deadline %d before the stop, %d after the restart (difference %d s, tolerance %d s)" % (k, h["deadline"], b["deadline"], b["deadline"] - h["deadline"], tol)))
         if unlimited and b["deadline"] != h["deadline"]:
-            hits.append(("deadline-changed:unlimited", "hold %s: unlimited hold restored with deadline %d" % (k, b["deadline"])))
+            hits.append(("deadline-changed:unlimited" + tag(k), "hold %s: unlimited hold restored with deadline %d" % (k, b["deadline"])))
     for k, g in bgroups.items():
         for b in g:
-            hits.append(("resurrected-hold", "hold %s (deadline %d) is held after the restart but was not held at the stop" % (k, b["deadline"])))
-    return hits
+            hits.append(("resurrected-hold" + tag(k), "hold %s (deadline %d) is held after the restart but was not held at the stop" % (k, b["deadline"])))
+    return raw + hits
 
 
 # ------------------------------------------------------------------------------------------------- corpus
@@ -335,6 +415,21 @@ def uses_ms(case):
 
 
 # ------------------------------------------------------------------------------------------------- main
+def derive_restart_fixes(ctx):
+    """source switch of the restart model: does the millisecond branch of GetLockCommandExpriedTime subtract elapsed time?"""
+    src = open(os.path.join(vlib.REPO, "server", "aof.go")).read()
+    m = re.search(r"\nfunc \(self \*Aof\) GetLockCommandExpriedTime\(.*?\n}\n", src, flags=re.S)
+    body = m.group(0) if m else ""
+    b = re.search(r"EXPRIED_FLAG_MILLISECOND_TIME != 0 \{(.*?)\n\t}\n", body, flags=re.S)
+    fixed = bool(b and "lockDb.currentTime" in b.group(1))
+    txt = ("(* GENERATED by checks/C07.py from the text of <repo>/server/aof.go (GetLockCommandExpriedTime, millisecond branch). *)\n"
+           "Definition fix_ms_remaining : bool := %s.\n" % ("true" if fixed else "false"))
+    with vlib.Lock("coq"):
+        vlib.write_if_changed(os.path.join(vlib.COQ, "Restart", "FixFlags.v"), txt)
+    ctx.notes.append("source switch fix_ms_remaining = %s (derived from %s/server/aof.go)" % (fixed, vlib.REPO))
+    return fixed
+
+
 def derive_data_fixes(ctx):
     try:
         from checks import C15_data
@@ -441,6 +536,7 @@ def run(ctx):
     for t in TRUSTED:
         ctx.trusted.append(t)
     derive_data_fixes(ctx)
+    derive_restart_fixes(ctx)
     # ---------------------------------------------------------------- Coq
     broken = []
     if os.path.exists(os.path.join(vlib.COQ, "Properties", "C07.v")):
@@ -469,7 +565,7 @@ def run(ctx):
             lines = ["case %d %s" % (cid, " ".join(h[2:]))] + lines[1:]
             cases.append(lines); origin[str(cid)] = "corpus:" + name; cid += 1
         configs = CONFIGS_THOROUGH if thorough else CONFIGS_QUICK
-        n_hist = 1500 if thorough else 70
+        n_hist = 1500 if thorough else 140
         stats = collections.Counter()
         profs = [("aof", 0.45, None), ("expiry", 0.2, None), ("reentrant", 0.2, None), ("aof", 0.15, safe_data)]
         for prof, w, wd in profs:
@@ -507,7 +603,7 @@ def run(ctx):
             dist["outage_%s" % c[0].split()[4]] += 1
             if len(B) >= 1 and len(o1["replies"]) >= 3:
                 nontrivial.add(hash(tuple(c[1:])))
-            for sig, desc in monitor(c, o1, o2):
+            for sig, desc in monitor(c, o1, o2, (mres.get(cid_s) or {}).get("recs")):
                 hits.setdefault(sig, []).append((c, desc))
             d = compare_case(c, o1, o2, mres.get(cid_s))
             if d:
@@ -523,7 +619,11 @@ def run(ctx):
                 o1, o2 = run_go(binary, cc, os.path.join(tmp, "shrink"))
                 if o2 is None or o2.get("wall") is None or o1.get("panic"):
                     return False
-                return any(s == sig for s, _ in monitor(cc, o1, o2))
+                recs = None
+                if not uses_ms(cc):
+                    mr, _, _ = run_model(modelrun, [model_input(cc, o1, o2)], tmp)
+                    recs = (mr.get(cc[0].split()[1]) or {}).get("recs")
+                return any(s == sig for s, _ in monitor(cc, o1, o2, recs))
             known = any(k.get("status") == "known" and re.fullmatch(k["match"], sig) for k in ctx.known)
             short = shrink(c, still, max_rounds=10 if known else 60) if len(c) > 6 else c
             res = ctx.violation(sig, desc, {"history": short, "origin": origin.get(c[0].split()[1]), "occurrences": len(lst),
@@ -579,11 +679,13 @@ def replay(ctx, binary, modelrun, tmp):
         print("history did not run:", o1.get("rc"), o1.get("stderr")); return 1
     print("census before the stop:"); print("\n".join(o1["holds"]))
     print("census after the restart (wall %s):" % o2["wall"]); print("\n".join(o2["holds"]))
-    for sig, desc in monitor(hist, o1, o2):
-        print("monitor: %s: %s" % (sig, desc)); rc = 1
+    recs = None
     if not uses_ms(hist):
         mres, mrc, merr = run_model(modelrun, [model_input(hist, o1, o2)], tmp)
+        recs = (mres.get(hist[0].split()[1]) or {}).get("recs")
         d = compare_case(hist, o1, o2, mres.get(hist[0].split()[1]))
         if d:
             print("model and implementation differ:", json.dumps(d)[:1200]); rc = 1
+    for sig, desc in monitor(hist, o1, o2, recs):
+        print("monitor: %s: %s" % (sig, desc)); rc = 1
     return rc
